@@ -13,7 +13,9 @@ import re
 from hypothesis import strategies as st
 
 # ------------------------------------------------------------------ layout
-SP = [' ', '\n', '  ', '\n  ', ' \n', ' %HID\n', ' %HID\n   ', '\t', ' ', '\n', '\n%HID\n', ' \n %HID\n  ']
+SP = [' ', '\n', '  ', '\n  ', ' \n', ' %HID\n', ' %HID\n   ', '\t', ' ', '\n', '\n%HID\n', ' \n %HID\n  ',
+      # commented-out skip markers are ordinary comments (seeded change C03-H)
+      ' % %%% LT-SKIP-BEGIN HID\n', '\n% %%% LT-SKIP-END HID\n', ' %x %%% LT-SKIP-BEGIN HID\n']
 GLUE = ['%HID\n', '%HID\n  ', '']
 PARA = ['\n\n', '\n  \n', '\n\n\n', ' \n\n  ', '\n%HID\n\n', '\n\n%HID\n',
         # a comment followed by a line that is blank but not empty (seeded change C05-A)
@@ -60,7 +62,10 @@ PASS = [(r'\textcolor{KEY}{', '}'), (r'\colorbox{KEY}{', '}'), (r'\href{KEY}{', 
         (r'\zzunkb{', '}{}'), (r'\url{', '}'), (r'\foreignlanguage{german}{', '}'), (r'\foreignlanguage[KEY]{french}{', '}')]
 SPECIAL = [('--', '–'), ('---', '—'), ('``', '“'), ("''", '”'),
            ('~', '\xa0'), ('\\,', '\u202f'), ('\\%', '%'), ('\\&', '&'), ('\\$', '$'),
-           ('\\#', '#'), ('\\_', '_'), ('\\{', '{'), ('\\}', '}')]
+           ('\\#', '#'), ('\\_', '_'), ('\\{', '{'), ('\\}', '}'),
+           # brackets as text: a closing one anywhere, both inside a group (all optional arguments of the
+           # renderer are written as [{..}], where a bracket must not end or nest the argument; seeded change C03-G)
+           (']', ']'), ('{[}', '['), ('{]}', ']')]
 HEAD = ['section', 'subsection', 'subsubsection', 'chapter', 'part', 'title']
 FOOT = [r'\footnote{', r'\footnotetext{', r'\caption{', r'\footnote[KEY]{', r'\caption[KEY]{']
 PARENV = [r'\begin{minipage}{KEY}', r'\begin{thebibliography}{KEY}']
@@ -361,6 +366,12 @@ def render_item(m, it):
         m.features.add('pass')
         if it[3] == '\n' or it[4] in ('\n', '\n  '):
             m.features.add('own-line-brace')
+    elif k == 'special' and it[1][0] in ('{[}', '{]}'):
+        m.emit('{')
+        off = m.emit(it[1][1])
+        m.cur().append(('c', it[1][1], off, it[1][1]))
+        m.emit('}')
+        m.features.add('special')
     elif k == 'special':
         off = m.emit(it[1][0])
         m.cur().append(('c', it[1][1], off, it[1][0]))
@@ -821,7 +832,9 @@ def adjacency(flow):
         else:
             is_w = a[0] == 'w'
             if last is not None and not blocked:
-                if any(c == 'X' for c, _ in seps):
+                if any(c == 'X' for c, _ in seps) and not (is_w and last_w and any(c == 'P' for c, _ in seps)):
+                    # across a skip region only a paragraph break is claimed (seeded change C05-H); the line end of
+                    # the end marker swallows or forms white space depending on what follows
                     cls = None
                 elif is_w and last_w:
                     if any(c == 'P' for c, _ in seps):
